@@ -180,6 +180,19 @@ Theorem C04_overlap_loose_quiescent_classified :
 Proof. exact overlap_loose_quiescent_classified. Qed.
 Print Assumptions C04_overlap_loose_quiescent_classified.
 
+(* the start handshake: start() does not return before the run thread has
+   written STARTED and entered the run loop (strict waits); a START subscriber
+   slower than the one second start() waits breaks this (loose waits) *)
+Theorem C04_start_returns_after_started :
+  forall s, oreach false pol_any s -> handshake_ok s = true.
+Proof. exact start_returns_after_started. Qed.
+Print Assumptions C04_start_returns_after_started.
+
+Theorem C04_start_handshake_loose_refuted :
+  exists s, oreach true pol_any s /\ handshake_ok s = false /\ o_rs s = RStarting /\ o_w s = WSetStarted.
+Proof. exact start_handshake_loose_refuted. Qed.
+Print Assumptions C04_start_handshake_loose_refuted.
+
 Theorem C04_overlap_stop_end_refuted :
   exists s, oreach false pol_any s /\ quiescent s = true /\
             o_rs s = RStopping /\ o_ps s = PEnded /\ worker_dead s = true /\ qgood s = false.
